@@ -8,7 +8,7 @@ import operator as o
 
 import numpy as np
 
-from .. import gen_core, refmask, snapshot
+from .. import gen_core, harness, refmask, snapshot
 from ..cli import digest
 
 PROP = 'C06'
@@ -66,6 +66,7 @@ def gen(rng, idx, tier, seed):
         spec['via'] = 'dunder' if rng.random() < 0.8 else 'pncbo'
         spec['inject'] = bool(rng.random() < 0.6)
         spec['dtype_shift'] = bool(rng.random() < 0.4)
+        spec['disk'] = bool(idx % 16 == 4)
         if idx % 8 in (1, 5):
             # (a op b) op2 b: the intermediate result is the left operand
             spec['chain'] = names[int(rng.integers(len(names)))]
@@ -141,6 +142,19 @@ def run_binop(spec, res):
         inject(a, spec['seed'])
         inject(b, spec['seed'] + 1)
     coords = set(a.getCoords())
+    if spec.get('disk'):
+        # both operands are files on disk (saved, opened again)
+        with harness.casedir() as d, harness.handles() as h:
+            a2 = harness.to_disk(a, d, h, name='a.nc')
+            b2 = harness.to_disk(b, d, h, name='b.nc')
+            if a2 is not None and b2 is not None:
+                # (a file opened from disk declares its dimension-named
+                # variables coordinates by itself)
+                a2.setCoords(list(coords | set(a2.getCoords())))
+                res.facet('operands:disk')
+                binop_once(spec, res, a2, b2, spec['op'],
+                           set(a2.getCoords()), pncbo, '')
+                return
     mid = binop_once(spec, res, a, b, spec['op'], coords, pncbo, '')
     if mid is not None and spec.get('chain'):
         res.facet('chained')
